@@ -12,13 +12,16 @@ MaxVal == 65535
 RECURSIVE RLen(_)
 RLen(r) == IF r = <<>> THEN 0 ELSE r[1][2] + RLen(Tail(r))
 
-RECURSIVE Norm(_)
-Norm(r) == IF r = <<>> THEN <<>>
-           ELSE IF r[1][2] = 0 THEN Norm(Tail(r))
-           ELSE LET t == Norm(Tail(r)) IN
-                IF t # <<>> /\ t[1][1] = r[1][1]
-                THEN << <<r[1][1], r[1][2] + t[1][2]>> >> \o Tail(t)
-                ELSE << r[1] >> \o t
+(* Norm is written with an accumulator: TLC re-evaluates a LET-bound recursive result at every use,
+   which made the naive definition exponential in the number of runs. *)
+RECURSIVE NormAcc(_, _)
+NormAcc(acc, r) ==
+    IF r = <<>> THEN acc
+    ELSE IF r[1][2] = 0 THEN NormAcc(acc, Tail(r))
+    ELSE IF acc # <<>> /\ acc[Len(acc)][1] = r[1][1]
+         THEN NormAcc([acc EXCEPT ![Len(acc)] = <<r[1][1], acc[Len(acc)][2] + r[1][2]>>], Tail(r))
+         ELSE NormAcc(Append(acc, r[1]), Tail(r))
+Norm(r) == NormAcc(<<>>, r)
 
 RECURSIVE RTake(_, _)
 RTake(r, n) == IF n = 0 \/ r = <<>> THEN <<>>
